@@ -137,6 +137,39 @@ pub fn alphabet() -> Vec<I> {
     a
 }
 
+/// Alphabets of the `frames` space (cursors and call frames): wide, medium, core.
+pub fn frames_alphabets() -> (Vec<I>, Vec<I>, Vec<I>) {
+    let r = Target::Resolved;
+    let core = vec![
+        I::FactNew(x()),
+        I::QueryStart,
+        I::QueryNext(x()),
+        I::Return,
+        I::Exit(ExitReason::Normal),
+        I::Call(r(2)),
+        I::Call(r(3)),
+        I::Call(r(4)),
+    ];
+    let mut medium = core.clone();
+    medium.extend([I::Pop, I::Recall(r(3)), I::Branch(r(0)), I::Block]);
+    let mut wide = medium.clone();
+    wide.extend([
+        I::QueryNext(y()),
+        I::Dup,
+        I::End,
+        I::SaveSP,
+        I::RestoreSP,
+        I::Const(ConstValue::Bool(true)),
+        I::Call(r(0)),
+        I::Call(r(1)),
+        I::Recall(r(2)),
+        I::Jump(r(0)),
+        I::Jump(r(3)),
+        I::Branch(r(3)),
+    ]);
+    (wide, medium, core)
+}
+
 /// Instructions whose failure mode is expected to kill the process rather than unwind
 /// (allocation of an attacker-chosen size); enumerated only as singles so that the
 /// enumeration of longer sequences is not dominated by child restarts.
@@ -255,7 +288,10 @@ pub fn contexts() -> Vec<(&'static str, CommandContext)> {
     ]
 }
 
-pub const SCRIPTS: [&str; 5] = ["ok_two_items", "internal", "not_found", "item_then_error", "empty"];
+pub const SCRIPTS: [&str; 6] = ["ok_two_items", "internal", "not_found", "item_then_error", "empty", "one_item"];
+/// The full environment product of the `seq` space uses the first five scripts; `one_item`
+/// (a query that is exhausted after exactly one fact) is used by the `frames` space.
+pub const PRODUCT_SCRIPTS: usize = 5;
 
 /// Scripted MachineIO: answers are a function of the script only.
 pub struct ScriptIO {
@@ -329,6 +365,7 @@ impl MachineIO<MachineStack> for ScriptIO {
             2 => Err(MachineIOError::FactNotFound),
             3 => Ok(vec![item(1, true), Err(MachineIOError::Internal)].into_iter()),
             4 => Ok(vec![].into_iter()),
+            5 => Ok(vec![item(1, true)].into_iter()),
             _ => {
                 if self.use_store {
                     let k: Vec<_> = key.into_iter().collect();
@@ -498,9 +535,10 @@ fn panic_key(prefix: &str, loc: &str, msg: &str, instr: Option<&I>) -> String {
 
 pub struct SeqSpace {
     name: String,
-    alpha: Vec<I>,
     /// (length, number of sequences of that length, first unit index)
     lens: Vec<(usize, u64, u64)>,
+    /// alphabet per entry of `lens` (the spaces over the full alphabet use `alpha` for all)
+    alphas: Vec<Vec<I>>,
     extra_singles: Vec<I>,
     envs: Vec<(usize, usize, usize)>,
     stacks: Vec<(&'static str, Vec<Value>)>,
@@ -540,7 +578,7 @@ impl SeqSpace {
             None => {
                 for s in 0..stacks.len() {
                     for c in 0..ctxs.len() {
-                        for io in 0..SCRIPTS.len() {
+                        for io in 0..PRODUCT_SCRIPTS {
                             envs.push((s, c, io));
                         }
                     }
@@ -556,7 +594,7 @@ impl SeqSpace {
         }
         SeqSpace {
             name: name.to_string(),
-            alpha,
+            alphas: l.iter().map(|_| alpha.clone()).collect(),
             lens: l,
             extra_singles: if with_probes { fatal_probe_alphabet() } else { vec![] },
             envs,
@@ -571,21 +609,35 @@ impl SeqSpace {
         self.lens.iter().map(|l| l.1).sum()
     }
 
+    /// A space with its own alphabet per sequence length and an explicit environment list.
+    pub fn with_alphabets(name: &str, specs: Vec<(usize, Vec<I>)>, envs: &[(usize, usize, usize)]) -> Self {
+        let mut sp = SeqSpace::new(name, &[], Some(envs), false, false);
+        let mut first = 0u64;
+        for (len, alpha) in specs {
+            let n = (alpha.len() as u64).pow(len as u32);
+            sp.lens.push((len, n, first));
+            sp.alphas.push(alpha);
+            first += n;
+        }
+        sp
+    }
+
     pub fn sequence(&self, u: u64) -> Vec<I> {
         let su = self.seq_units();
         if u >= su {
             return vec![self.extra_singles[(u - su) as usize].clone()];
         }
-        for &(len, n, first) in &self.lens {
+        for (li, &(len, n, first)) in self.lens.iter().enumerate() {
             if u < first + n {
                 let mut r = u - first;
-                let k = self.alpha.len() as u64;
+                let alpha = &self.alphas[li];
+                let k = alpha.len() as u64;
                 let mut idx = vec![0usize; len];
                 for i in (0..len).rev() {
                     idx[i] = (r % k) as usize;
                     r /= k;
                 }
-                return idx.into_iter().map(|i| self.alpha[i].clone()).collect();
+                return idx.into_iter().map(|i| alpha[i].clone()).collect();
             }
         }
         unreachable!()
@@ -1407,6 +1459,14 @@ pub fn space_by_name(name: &str, args: &Args) -> Box<dyn Space> {
         "probe" => Box::new(SeqSpace::new("probe", &[], Some(&[(0, 4, 0), (6, 0, 1), (3, 2, 3)]), true, false)),
         "seq3" => Box::new(SeqSpace::new("seq3", &[3], Some(&[(0, 4, 0), (6, 2, 3), (8, 3, 0)]), false, false)),
         "codemap" => Box::new(SeqSpace::new("codemap", &[1, 2], Some(&[(0, 4, 0), (1, 4, 0)]), false, true)),
+        "frames" => {
+            // cursors opened in one call frame and consumed / disposed of in another:
+            // stacks {empty, two facts} × policy context × queries yielding 2, 1+error, 0, 1 facts
+            let (wide, medium, core) = frames_alphabets();
+            let envs: Vec<(usize, usize, usize)> = [0usize, 4].iter().flat_map(|s| [0usize, 3, 4, 5].into_iter().map(move |io| (*s, 4usize, io))).collect();
+            let specs = if thorough { vec![(4, wide.clone()), (5, wide), (6, medium), (7, core)] } else { vec![(4, wide), (5, medium), (6, core)] };
+            Box::new(SeqSpace::with_alphabets("frames", specs, &envs))
+        }
         "subst" => Box::new(SubstSpace::new()),
         "args" => Box::new(ArgsSpace::new()),
         "modtrunc" => Box::new(ModTruncSpace::new(thorough)),
@@ -1424,7 +1484,7 @@ pub fn run(args: &Args) {
     }
     let mut rep = Report::new(args, Level::Exploration);
     let thorough = args.tier == mcx::Tier::Thorough;
-    let names: &[&str] = if thorough { &["seq", "probe", "codemap", "subst", "args", "modtrunc"] } else { &["seq", "seq3", "probe", "codemap", "subst", "args", "modtrunc"] };
+    let names: &[&str] = if thorough { &["seq", "frames", "probe", "codemap", "subst", "args", "modtrunc"] } else { &["seq", "seq3", "frames", "probe", "codemap", "subst", "args", "modtrunc"] };
     let mut exhaustive = true;
     let spaces: Vec<Box<dyn Space>> = names.iter().map(|n| space_by_name(n, args)).collect();
     let refs: Vec<&dyn Space> = spaces.iter().map(|b| b.as_ref()).collect();
@@ -1446,18 +1506,18 @@ pub fn run(args: &Args) {
     let sub = SubstSpace::new();
     rep.set("corpus_programs", sub.baselines.clone());
     rep.set("alphabet_size", alphabet().len() as u64);
-    rep.set("environments", (stacks().len() * contexts().len() * SCRIPTS.len()) as u64);
+    rep.set("environments", (stacks().len() * contexts().len() * PRODUCT_SCRIPTS) as u64);
     rep.set("step_horizon", HORIZON as u64);
     rep.set(
         "rule",
         format!(
-            "all instruction sequences of length ≤{} over a {}-instruction alphabet covering all {} kinds × {} initial stacks × {} contexts × {} MachineIO scripts{}; sequences ≤2 × 8 hand-built code maps; every alphabet instruction substituted at every executed pc of the corpus programs; every entry point × boundary argument tuples; every truncation of the corpus modules (bytes of 3 encodings, 9 sections). non-trivial = distinct (sequence/site, behaviour signature) with ≥2 instructions executed (behaviour signature = outcome class, steps, final stack depth, io calls, final pc)",
+            "all instruction sequences of length ≤{} over a {}-instruction alphabet covering all {} kinds × {} initial stacks × {} contexts × {} MachineIO scripts{}; sequences ≤2 × 8 hand-built code maps; call-frame / query-cursor sequences (`frames`: length 4 over 24, 5 over 12, 6 over 8 instructions — thorough 4–5 over 24, 6 over 12, 7 over 8 — × {{empty, two-fact}} stacks × queries yielding 2 / 1-then-error / 0 / 1 facts); every alphabet instruction substituted at every executed pc of the corpus programs; every entry point × boundary argument tuples; every truncation of the corpus modules (bytes of 3 encodings, 9 sections). non-trivial = distinct (sequence/site, behaviour signature) with ≥2 instructions executed (behaviour signature = outcome class, steps, final stack depth, io calls, final pc)",
             if thorough { 3 } else { 2 },
             alphabet().len(),
             KINDS,
             stacks().len(),
             contexts().len(),
-            SCRIPTS.len(),
+            PRODUCT_SCRIPTS,
             if thorough { "" } else { "; all length-3 sequences × 3 environments" }
         ),
     );
